@@ -643,7 +643,10 @@ func (root *Root) validateDirUseIn(where string, loc Location, du *DirectiveUse,
 					// what is needed.
 					if pending == nil {
 						av.Value = v
-					} else {
+					} else if !isCollection(v) {
+						// A list or an object stays as it was written,
+						// printing the form with the defaults of today's
+						// input types filled in would change the schema.
 						av := av
 						*pending = append(*pending, func() { av.Value = v })
 					}
